@@ -1,17 +1,254 @@
 package main
 
 import (
+	"encoding/json"
+	"flag"
 	"fmt"
-	"golang.org/x/tools/go/packages"
-	"golang.org/x/tools/go/ssa"
-	"golang.org/x/tools/go/ssa/ssautil"
+	"os"
+	"path/filepath"
+	"sort"
+	"strconv"
+	"strings"
+	"time"
 )
 
+type funcReport struct {
+	Key         string   `json:"function"`
+	Mode        string   `json:"arithmetic"`
+	Paths       int      `json:"paths"`
+	Obligations int      `json:"obligations"`
+	Dropped     []string `json:"dropped_calls,omitempty"`
+	Externs     []string `json:"trusted_external_contracts,omitempty"`
+	Axioms      []string `json:"axioms_assumed,omitempty"`
+	Error       string   `json:"error,omitempty"`
+}
+
+func hasTag(tags []string, p string) bool {
+	for _, t := range tags {
+		if t == p {
+			return true
+		}
+	}
+	return false
+}
+
 func main() {
-	cfg := &packages.Config{Mode: packages.LoadAllSyntax, Dir: "/repo", BuildFlags: []string{"-tags=verif"}}
-	pkgs, err := packages.Load(cfg, "./modbus")
-	if err != nil { panic(err) }
-	prog, spkgs := ssautil.AllPackages(pkgs, ssa.NaiveForm|ssa.GlobalDebug)
-	_ = prog
-	for _, p := range spkgs { p.Build(); fmt.Println(p.Pkg.Path(), len(p.Members)) }
+	repo := flag.String("repo", "/repo", "repository root")
+	verifDir := flag.String("verif", "/verif", "verif root")
+	prop := flag.String("prop", "", "property id")
+	only := flag.String("func", "", "verify only this function key (debug)")
+	tier := flag.String("tier", "quick", "quick|thorough")
+	timeout := flag.Int("timeout", 0, "per-obligation solver timeout (s)")
+	verbose := flag.Bool("v", false, "verbose")
+	dump := flag.String("dump", "", "dump queries of obligations whose name contains this string")
+	noEvidence := flag.Bool("no-evidence", false, "do not write evidence")
+	flag.Parse()
+	t0 := time.Now()
+	if *timeout == 0 {
+		*timeout = 10
+		if *tier == "thorough" {
+			*timeout = 60
+		}
+	}
+	seed := 0
+	if s := os.Getenv("VERIF_SEED"); s != "" {
+		seed, _ = strconv.Atoi(s)
+	}
+
+	db := newSpecDB()
+	files, _ := filepath.Glob(filepath.Join(*repo, "*", "zz_verif_contracts.go"))
+	more, _ := filepath.Glob(filepath.Join(*repo, "*", "*", "zz_verif_contracts.go"))
+	files = append(files, more...)
+	sort.Strings(files)
+	pkgDirs := map[string]string{}
+	for _, f := range files {
+		pn := goPackageName(f)
+		rel, _ := filepath.Rel(*repo, filepath.Dir(f))
+		pkgDirs[pn] = "./" + rel
+		if err := db.loadSpecFile(f, pn, true); err != nil {
+			fatalCheck(*prop, "contract file error: %v", err)
+		}
+	}
+	exts, _ := filepath.Glob(filepath.Join(*verifDir, "contracts", "extern", "*.spec"))
+	sort.Strings(exts)
+	for _, f := range exts {
+		if err := db.loadSpecFile(f, "", false); err != nil {
+			fatalCheck(*prop, "extern spec error: %v", err)
+		}
+	}
+
+	// functions in the property cone
+	var keys []string
+	for _, k := range db.order {
+		fc := db.funcs[k]
+		if fc.trusted || fc.inline {
+			continue
+		}
+		if isIfaceKey(k, db) {
+			continue
+		}
+		if *only != "" {
+			if k == *only {
+				keys = append(keys, k)
+			}
+			continue
+		}
+		if *prop == "" || hasTag(fc.props, *prop) || clausesTagged(fc, *prop) {
+			keys = append(keys, k)
+		}
+	}
+	if len(keys) == 0 {
+		fatalCheck(*prop, "no functions under contract for property %q", *prop)
+	}
+	pkgSet := map[string]bool{}
+	for _, k := range keys {
+		pn := k[:strings.Index(k, ".")]
+		if d, ok := pkgDirs[pn]; ok {
+			pkgSet[d] = true
+		}
+	}
+	var pkgPaths []string
+	for d := range pkgSet {
+		pkgPaths = append(pkgPaths, d)
+	}
+	sort.Strings(pkgPaths)
+	prog, err := loadProgram(*repo, pkgPaths)
+	if err != nil {
+		fatalCheck(*prop, "cannot load %v: %v", pkgPaths, err)
+	}
+	tLoad := time.Since(t0).Seconds()
+
+	var all []*obligation
+	var reports []funcReport
+	var engineErrors []string
+	assumptions := map[string]bool{}
+	for _, k := range keys {
+		x := newExecutor(prog, db)
+		err := x.verify(k)
+		fr := funcReport{Key: k, Mode: db.funcs[k].mode, Paths: x.paths}
+		if fr.Mode == "" {
+			fr.Mode = "int"
+		}
+		for d, n := range x.dropped {
+			fr.Dropped = append(fr.Dropped, fmt.Sprintf("%s×%d", d, n))
+		}
+		sort.Strings(fr.Dropped)
+		fr.Externs = sortedKeys(x.externs)
+		fr.Axioms = sortedKeys(x.axiomsUsed)
+		for a := range x.assumeNotes {
+			assumptions[a] = true
+		}
+		if err != nil {
+			fr.Error = err.Error()
+			fmt.Fprintln(os.Stderr, "govc: engine error:", err)
+			engineErrors = append(engineErrors, err.Error())
+			// an anchoring / subset error is a failed obligation of the function
+			o := &obligation{name: k + "/contract-anchor", kind: "contract-anchor", fn: k, status: "unknown", detail: err.Error(), goal: tFalse}
+			all = append(all, o)
+		}
+		fc := db.funcs[k]
+		for _, o := range x.obls {
+			if *prop != "" && *only == "" {
+				if len(o.tags) > 0 {
+					if !hasTag(o.tags, *prop) {
+						continue
+					}
+				} else if !hasTag(fc.props, *prop) {
+					continue
+				}
+			}
+			all = append(all, o)
+			fr.Obligations++
+		}
+		reports = append(reports, fr)
+	}
+	tGen := time.Since(t0).Seconds() - tLoad
+
+	scratch, _ := os.MkdirTemp("", "govc-")
+	defer os.RemoveAll(scratch)
+	if *dump != "" {
+		for i, o := range all {
+			if strings.Contains(o.name, *dump) && o.goal != nil && o.c != nil {
+				f := fmt.Sprintf("/tmp/dump_%d.smt2", i)
+				os.WriteFile(f, []byte(renderQuery(o, true, nil)), 0o644)
+				fmt.Println("dumped", o.name, "path", o.pathID, "->", f)
+			}
+		}
+	}
+	var toSolve []*obligation
+	for _, o := range all {
+		if o.c != nil {
+			toSolve = append(toSolve, o)
+		}
+	}
+	discharge(toSolve, scratch, *timeout, 10)
+	tSolve := time.Since(t0).Seconds() - tLoad - tGen
+
+	res := summarize(*prop, *tier, seed, all, reports, assumptions, *verifDir, *verbose)
+	res.Timing = map[string]float64{"load_s": round2(tLoad), "vcgen_s": round2(tGen), "solve_s": round2(tSolve)}
+	res.WallS = round2(time.Since(t0).Seconds())
+	if !*noEvidence && *prop != "" && *only == "" {
+		writeEvidence(res, filepath.Join(*verifDir, "evidence", *prop+".json"))
+	}
+	fmt.Printf("govc: property=%s functions=%d obligations=%d discharged=%d trivial=%d failed=%d known=%d  (load %.1fs, vcgen %.1fs, solve %.1fs)\n",
+		*prop, len(keys), res.Obligations, res.Discharged, res.Trivial, len(res.Failed), res.KnownHits, tLoad, tGen, tSolve)
+	if len(res.Failed) > 0 {
+		os.Exit(1)
+	}
+}
+
+func round2(f float64) float64 { return float64(int(f*100+0.5)) / 100 }
+
+func isIfaceKey(k string, db *specDB) bool {
+	// interface method contracts are referenced by `implements` or used at invoke sites; they have no body
+	for _, fc := range db.funcs {
+		if fc.implements == k {
+			return true
+		}
+	}
+	return db.funcs[k].pure && false
+}
+
+func clausesTagged(fc *funcContract, p string) bool {
+	if p == "" {
+		return true
+	}
+	for _, cl := range fc.ensures {
+		if hasTag(cl.tags, p) {
+			return true
+		}
+	}
+	for _, l := range fc.loops {
+		for _, cl := range l.invariants {
+			if hasTag(cl.tags, p) {
+				return true
+			}
+		}
+	}
+	return false
+}
+
+func goPackageName(file string) string {
+	b, _ := os.ReadFile(file)
+	for _, l := range strings.Split(string(b), "\n") {
+		l = strings.TrimSpace(l)
+		if strings.HasPrefix(l, "package ") {
+			return strings.TrimSpace(strings.TrimPrefix(l, "package "))
+		}
+	}
+	return filepath.Base(filepath.Dir(file))
+}
+
+func fatalCheck(prop string, format string, a ...interface{}) {
+	msg := fmt.Sprintf(format, a...)
+	fmt.Fprintln(os.Stderr, "govc: "+msg)
+	if prop != "" {
+		// a broken check is reported as a violation without a failing input
+		rp := filepath.Join("/verif", "replays", prop, "engine-error.json")
+		os.MkdirAll(filepath.Dir(rp), 0o755)
+		b, _ := json.MarshalIndent(map[string]string{"obligation": "engine/contract-anchor", "error": msg}, "", " ")
+		os.WriteFile(rp, b, 0o644)
+		fmt.Printf("VIOLATION property=%s replay=%s no-failing-input-found\n", prop, rp)
+	}
+	os.Exit(1)
 }
